@@ -129,13 +129,14 @@ Qed.
 Section Server.
 Variable req_loads : bytes -> rres.
 Variable store : bytes -> option bytes.
+Variable completed : bytes -> bool.
 
 Definition is_close (o : sout) : bool := match o with SClose => true | _ => false end.
 
 (* request cap: 1200 buffered bytes or more => closed, nothing handled, nothing sent *)
 Lemma srv_cap s data :
   zlen (s_buf s) + zlen data >= MAX_REQUEST_SIZE ->
-  srv_data req_loads store s data = (mkS (s_buf s) false, [SClose]).
+  srv_data req_loads store completed s data = (mkS (s_buf s) false, [SClose]).
 Proof.
   intro Hc. unfold srv_data. destruct (zlen (s_buf s) + zlen data >=? MAX_REQUEST_SIZE) eqn:E; [reflexivity|lia].
 Qed.
@@ -151,7 +152,7 @@ Qed.
 (* the buffer never reaches the cap *)
 Lemma srv_buf_bounded s data s' out :
   zlen (s_buf s) < MAX_REQUEST_SIZE ->
-  srv_data req_loads store s data = (s', out) -> zlen (s_buf s') < MAX_REQUEST_SIZE.
+  srv_data req_loads store completed s data = (s', out) -> zlen (s_buf s') < MAX_REQUEST_SIZE.
 Proof.
   intros Hb Hs. unfold srv_data in Hs.
   destruct (zlen (s_buf s) + zlen data >=? MAX_REQUEST_SIZE) eqn:E.
@@ -168,7 +169,7 @@ Lemma srv_bad_json s data t :
   zlen (s_buf s) + zlen data < MAX_REQUEST_SIZE -> data <> [] ->
   after_last_brace data = Some t ->
   (req_loads (s_buf s ++ data) = RBadJson \/ req_loads (s_buf s ++ data) = RRaise \/ req_loads (s_buf s ++ data) = REmpty) ->
-  exists s', srv_data req_loads store s data = (s', [SClose]) /\ s_open s' = false.
+  exists s', srv_data req_loads store completed s data = (s', [SClose]) /\ s_open s' = false.
 Proof.
   intros Hc Hne Ha Hr. unfold srv_data.
   destruct (zlen (s_buf s) + zlen data >=? MAX_REQUEST_SIZE) eqn:E; [lia|].
@@ -178,9 +179,9 @@ Qed.
 
 (* what may appear on the wire of one connection: headers that announce nothing, or a header announcing
    (h, length of b) for a HELD blob b = store h directly followed by exactly the bytes b; availability
-   lists name held blobs only; blob bytes never appear without their header *)
+   lists name blobs of the completed index only; blob bytes never appear without their header *)
 Definition avail_ok (hd : header) : Prop :=
-  forall l x, h_avail hd = Some l -> In x l -> held store x = true.
+  forall l x, h_avail hd = Some l -> In x l -> completed x = true.
 Inductive wire_ok : list sout -> Prop :=
 | wk_nil : wire_ok []
 | wk_plain hd rest : h_incoming hd = None -> avail_ok hd -> wire_ok rest -> wire_ok (SHeader hd :: rest)
@@ -193,13 +194,13 @@ Lemma wire_ok_app a b : wire_ok a -> wire_ok b -> wire_ok (a ++ b).
 Proof. intros Ha Hb. induction Ha; cbn [app]; try (econstructor; eassumption); assumption. Qed.
 
 Lemma filter_avail_ok inc p (q : request_msg) a :
-  avail_ok (mkHdr inc p (match q_avail q with Some l => Some (filter (held store) l) | None => None end) a).
+  avail_ok (mkHdr inc p (match q_avail q with Some l => Some (filter completed l) | None => None end) a).
 Proof.
   intros l x Hl Hi. cbn in Hl. destruct (q_avail q); inversion Hl; subst.
   apply filter_In in Hi. tauto.
 Qed.
 
-Lemma handle_request_wire_ok q : wire_ok (handle_request store q).
+Lemma handle_request_wire_ok q : wire_ok (handle_request store completed q).
 Proof.
   unfold handle_request.
   destruct (q_blob q) as [[h|]|].
@@ -215,7 +216,7 @@ Qed.
 
 (* a blob is announced only when it was asked for by hash and is held *)
 Lemma handle_request_announces q hd rest h l :
-  handle_request store q = SHeader hd :: rest -> h_incoming hd = Some (h, l) ->
+  handle_request store completed q = SHeader hd :: rest -> h_incoming hd = Some (h, l) ->
   q_blob q = Some (BqHash h) /\ exists b, store h = Some b /\ l = zlen b /\ exists rest', rest = SBlob b :: rest'.
 Proof.
   unfold handle_request. intros He Hi.
@@ -228,7 +229,7 @@ Proof.
   - destruct (q_addr q || _ || q_price q); inversion He; subst. discriminate.
 Qed.
 
-Lemma srv_data_wire_ok s data : wire_ok (snd (srv_data req_loads store s data)).
+Lemma srv_data_wire_ok s data : wire_ok (snd (srv_data req_loads store completed s data)).
 Proof.
   unfold srv_data.
   destruct (zlen (s_buf s) + zlen data >=? MAX_REQUEST_SIZE); [repeat constructor|].
@@ -239,23 +240,23 @@ Proof.
 Qed.
 
 Lemma srv_run_wire_ok_gen : forall frags s acc, wire_ok acc ->
-  wire_ok (snd (fold_left (srv_step req_loads store) frags (s, acc))).
+  wire_ok (snd (fold_left (srv_step req_loads store completed) frags (s, acc))).
 Proof.
   induction frags as [|f frags IH]; intros s acc Ha; [exact Ha|].
   cbn [fold_left]. unfold srv_step at 2.
   destruct (s_open s); [|apply IH; exact Ha].
   pose proof (srv_data_wire_ok s f) as Hd.
-  destruct (srv_data req_loads store s f) as [s' out]. cbn [snd] in Hd.
+  destruct (srv_data req_loads store completed s f) as [s' out]. cbn [snd] in Hd.
   apply IH. apply wire_ok_app; assumption.
 Qed.
 
 (* for EVERY sequence of segments a peer sends on a connection *)
-Lemma srv_run_wire_ok frags : wire_ok (snd (srv_run req_loads store fresh_server frags)).
+Lemma srv_run_wire_ok frags : wire_ok (snd (srv_run req_loads store completed fresh_server frags)).
 Proof. unfold srv_run. apply srv_run_wire_ok_gen. constructor. Qed.
 
 (* once closed, a connection handles nothing more *)
 Lemma srv_closed_stays : forall frags s acc, s_open s = false ->
-  fold_left (srv_step req_loads store) frags (s, acc) = (s, acc).
+  fold_left (srv_step req_loads store completed) frags (s, acc) = (s, acc).
 Proof.
   induction frags as [|f frags IH]; intros s acc Hc; [reflexivity|].
   cbn [fold_left]. unfold srv_step at 2. rewrite Hc. apply IH. exact Hc.
@@ -302,6 +303,7 @@ End Server.
 Section ServerFrag.
 Variable req_loads : bytes -> rres.
 Variable store : bytes -> option bytes.
+Variable completed : bytes -> bool.
 
 Definition no_brace (f : bytes) : Prop := forall x, In x f -> x <> rbrace.
 
@@ -309,7 +311,7 @@ Lemma srv_buffering : forall pre s acc,
   s_open s = true ->
   (forall f, In f pre -> f <> [] /\ no_brace f) ->
   zlen (s_buf s) + zlen (concat pre) < MAX_REQUEST_SIZE ->
-  fold_left (srv_step req_loads store) pre (s, acc) = (mkS (s_buf s ++ concat pre) true, acc).
+  fold_left (srv_step req_loads store completed) pre (s, acc) = (mkS (s_buf s ++ concat pre) true, acc).
 Proof.
   induction pre as [|f pre IH]; intros s acc Ho Hf Hc.
   - cbn. rewrite app_nil_r. destruct s; cbn in *; subst; reflexivity.
@@ -344,9 +346,9 @@ Lemma srv_fragmentation body q frags :
   no_brace body -> req_loads (body ++ [rbrace]) = RReq q ->
   zlen (body ++ [rbrace]) < MAX_REQUEST_SIZE ->
   concat frags = body ++ [rbrace] -> (forall f, In f frags -> f <> []) ->
-  srv_run req_loads store fresh_server frags =
-    (mkS [] (negb (existsb (fun o => match o with SClose => true | _ => false end) (handle_request store q))),
-     handle_request store q).
+  srv_run req_loads store completed fresh_server frags =
+    (mkS [] (negb (existsb (fun o => match o with SClose => true | _ => false end) (handle_request store completed q))),
+     handle_request store completed q).
 Proof.
   intros Hnb Hreq Hlen Hc Hne.
   destruct (concat_last_split frags body Hc Hnb) as [pre [last [d [post [Hf [Hl [Hp Hb]]]]]]].
